@@ -43,8 +43,8 @@ ASSUMPTIONS = [
   "type is asserted",
   "a missing sub-command (`tt` alone prints the help and exits 0) is only required not to create files: neither the README nor the "
   "property demands a non-zero status for it",
-  "an unknown --filter name is asserted to end in an error without output (the property composes 'the named document filters', which "
-  "does not exist for such a name); recorded as a separate, lower-confidence bucket errors:unknown-filter:*",
+  "an unknown --filter name (tt.py logs 'Unknown filter' and skips it) is exercised and labelled but not asserted: the property names "
+  "unsupported types and unknown sub-commands as errors, not unknown filters",
   "file-takes-precedence is only checked for two configurations with identical module/key sets, so that 'replace' and 'merge with file "
   "priority' readings agree",
 ]
@@ -271,7 +271,7 @@ def error_cases(seed):
       if scenario not in via_subprocess:            # the first variant of every scenario also runs as a real process
         via_subprocess.add(scenario)
         via = "subprocess"
-      out.append(dict(cmd, clause="errors", scenario=scenario, via=via, assert_status=scenario != "missing-subcommand"))
+      out.append(dict(cmd, clause="errors", scenario=scenario, via=via, assert_status=scenario not in ("missing-subcommand", "unknown-filter")))
   return out
 
 
@@ -295,7 +295,7 @@ def check_errors(case, res):
               "errors:%s:%s" % (scenario, "terminates-normally" if cli.status == "ok" else "error-status"))
     if case.get("assert_status", True) and cli.status != "error":
       res.fail("errors:%s:terminates-normally" % scenario, "argv %r ended with status 0" % (case["argv"],))
-    if new:
+    if new and scenario != "unknown-filter":
       res.fail("errors:%s:file-created" % scenario, "argv %r created %r" % (case["argv"], sorted(new)))
     res.nontrivial = True
 
